@@ -128,11 +128,11 @@ func classify(blk string) string {
 // ---- scenarios --------------------------------------------------------------------------------------------
 
 type Scn struct {
-	Kind  string        `json:"kind"` // proto | rt | rdns | alloc
-	Items []proto.Scn   `json:"items,omitempty"`
-	RT    *proto.RTScn  `json:"rt,omitempty"`
-	Bound int           `json:"bound"`
-	Name  string        `json:"name"`
+	Kind  string       `json:"kind"` // proto | rt | rdns | alloc
+	Items []proto.Scn  `json:"items,omitempty"`
+	RT    *proto.RTScn `json:"rt,omitempty"`
+	Bound int          `json:"bound"`
+	Name  string       `json:"name"`
 }
 
 func early(v string, flow int) proto.Scn {
@@ -164,13 +164,17 @@ func scenarios(tier string) []Scn {
 	for _, v := range []string{"icmp4", "icmp6", "udp4", "udp6", "sack", "sackstrict", "syn", "synparis"} {
 		out = append(out, Scn{Kind: "proto", Items: []proto.Scn{early(v, 0)}, Bound: b, Name: v + "/replies-queued-before-their-probe"})
 	}
-	for _, v := range []string{"icmp4", "udp4", "sackstrict"} {
+	for _, v := range []string{"icmp4", "icmp6", "udp4", "udp6", "sackstrict", "syn", "synparis"} {
 		a, c := early(v, 0), early(v, 1)
 		out = append(out, Scn{Kind: "proto", Items: []proto.Scn{a, c}, Bound: 1, Name: v + "+" + v + "/two-runs-at-once"})
 	}
-	for _, pr := range []struct{ p, m, h string }{{"udp", "", "203.0.113.77"}, {"icmp", "", "203.0.113.77"}, {"tcp", "sack", "198.18.0.9"}, {"tcp", "syn", "203.0.113.77"}} {
-		r := proto.RTScn{Hostname: pr.h, Protocol: pr.p, Method: pr.m, MinTTL: 1, MaxTTL: 4, DelayMs: 10, TimeoutMs: 200, Queries: 2, E2e: 2, Dest: 3, PublicIP: "ok", ReverseDNS: true, UseListenerPort: pr.m == "sack", IPIDBase: 1400, EchoBase: 140}
-		out = append(out, Scn{Kind: "rt", RT: &r, Bound: 1, Name: "request/" + pr.p + "-" + pr.m + "/2-runs+2-probes+public-ip+rdns"})
+	for _, pr := range []struct{ p, m, h string }{{"udp", "", "203.0.113.77"}, {"icmp", "", "203.0.113.77"}, {"tcp", "sack", "198.18.0.9"}, {"tcp", "syn", "203.0.113.77"}, {"udp", "", "2001:db8::77"}, {"icmp", "", "2001:db8::77"}} {
+		r := proto.RTScn{Hostname: pr.h, Protocol: pr.p, Method: pr.m, MinTTL: 1, MaxTTL: 4, DelayMs: 10, TimeoutMs: 200, Queries: 2, E2e: 2, Dest: 3, PublicIP: "ok", ReverseDNS: true, UseListenerPort: pr.m == "sack", IPIDBase: 1400, EchoBase: 140, WantV6: strings.Contains(pr.h, ":")}
+		fam := ""
+		if r.WantV6 {
+			fam = "6"
+		}
+		out = append(out, Scn{Kind: "rt", RT: &r, Bound: 1, Name: "request/" + pr.p + fam + "-" + pr.m + "/2-runs+2-probes+public-ip+rdns"})
 	}
 	for _, pr := range []struct{ p, m, h string }{{"udp", "", "203.0.113.77"}, {"tcp", "syn", "203.0.113.77"}} {
 		// every run and every probe of the request fails (no sink can be opened): all of them report into the shared error list
